@@ -502,6 +502,40 @@ def handle(job: dict) -> dict:
     return res
 
 
+def handle_history(job: dict) -> dict:
+    """A history of generate commands against one sandbox parent directory (C19).  Returns per step the diagnostics,
+    the M-FS event stream and a content-hash snapshot of the whole parent directory."""
+    parent = Path(job["work"]) / f"hist{job['id']}"
+    shutil.rmtree(parent, ignore_errors=True)
+    (parent / "sibling").mkdir(parents=True)
+    (parent / "sentinel.txt").write_text("sentinel-above")
+    (parent / "sibling" / "keep.txt").write_text("sentinel-beside")
+    (parent / "cwd").mkdir()
+    out = {"id": job.get("id"), "parent": str(parent), "steps": []}
+    out["initial"] = read_tree(parent, "hash")
+    for si, step in enumerate(job["steps"]):
+        for rel, text in (step.get("user_files") or {}).items():
+            fp = parent / rel
+            fp.parent.mkdir(parents=True, exist_ok=True)
+            fp.write_text(text)
+        before = read_tree(parent, "hash")
+        sj = dict(step)
+        sj.update({"id": f"{job['id']}.{si}", "work": str(parent / "_work"), "name": f"s{si}", "keep": True, "want": ["fs"], "cwd": str(parent / "cwd")})
+        if step.get("outdir_rel"):
+            sj["outdir"] = str(parent / step["outdir_rel"])
+            (parent / step["outdir_rel"]).parent.mkdir(parents=True, exist_ok=True)
+        else:
+            sj["no_output_path"] = True
+            sj["outdir"] = str(parent / "cwd" / "_unused")
+        r = handle(sj)
+        shutil.rmtree(parent / "_work", ignore_errors=True)
+        after = read_tree(parent, "hash")
+        out["steps"].append({"diags": r.get("diags"), "exc": r.get("exc"), "cli_exit": r.get("cli_exit"), "accepted": r.get("accepted"), "fs_events": r.get("fs_events"),
+                             "before": before, "after": after, "cli_stderr": (r.get("cli_stderr") or "")[:600]})
+    shutil.rmtree(parent, ignore_errors=True)
+    return out
+
+
 def handle_sandbox_only(job: dict) -> dict:
     """Run sandbox actions on an existing package directory (kept by an earlier job)."""
     pkgdir = Path(job["pkgdir"])
@@ -518,6 +552,8 @@ def main():
             job = json.loads(line)
             if job.get("op") == "sandbox":
                 out = handle_sandbox_only(job)
+            elif job.get("op") == "history":
+                out = handle_history(job)
             elif job.get("op") == "rmtree":
                 shutil.rmtree(job["path"], ignore_errors=True)
                 out = {"ok": True}
